@@ -123,7 +123,7 @@ PROPS["C26"] = dict(
           "written in one write, byte by byte, in 7 / 500 / 1000-byte writes, in writes straddling the PDU boundary and after an empty "
           "write: every PDU received is a P-DATA-TF of length <= the maximum with exactly one value for the chosen presentation context, "
           "only the final one marked last, and the values concatenate to the payload (skipped, not failed, where loopback TCP is unavailable)",
-          bound="77 (payload size, write schedule) pairs (native run of the compiled code; not a deductive result)",
+          bound="84 cases: 77 (payload size, write schedule) pairs + 7 peer maximum PDU lengths (1, 4, 5, 6: no room for data, the writer must fail; 7, 8, 20) announced by a hand-written acceptor (native run of the compiled code; not a deductive result)",
           fns=[("ul/src/association/pdata.rs", "setup_pdata_header")], timeout=600),
         N("C26.async",
           "cp /repo/Cargo.lock /verif/witness/Cargo.lock && CARGO_TARGET_DIR=/verif/build/witness cargo run --offline -q --release "
@@ -254,7 +254,7 @@ PROPS["C18"] = dict(
           "entry i = byte offset of frame i's first item from the first item after the table, in memory and as found by an independent walk "
           "of the WRITTEN data set where every fragment item has even length; Number of Frames matches; Encapsulated Pixel Data Value Total "
           "Length, when set, equals the total length of all fragments",
-          bound="63 transcodings (21 image shapes x 3 encoder targets; native enumeration of the compiled code; not a deductive result)",
+          bound="81 transcodings (21 image shapes x 3 encoder targets, odd-sized native values also with their padding byte; each followed by the way back to native; native enumeration of the compiled code; not a deductive result)",
           fns=[("pixeldata/src/transcode.rs", "transcode_with_options", r"impl<D>\s+Transcode\s+for"),
                ("transfer-syntax-registry/src/adapters/deflated.rs", "encode_frame", r"impl\s+PixelDataWriter\s+for\s+DeflatedImageFrameAdapter")]),
         K("C18.fragments_new", "ext", _single,
@@ -395,7 +395,7 @@ PROPS["C25"] = dict(
           "structure finds every PDU, item, sub-item and PDV length equal to the content it describes; the PDU reads back equal consuming "
           "exactly its bytes (also when more bytes follow); every strict prefix reads as incomplete; item content of 65535 bytes is "
           "written and read back while 65536 bytes make writing fail; strict mode rejects a PDU one byte above the maximum",
-          bound="238 PDUs and every one of their strict prefixes (native enumeration of the compiled code; not a deductive result)",
+          bound="246 cases: 238 PDUs and every one of their strict prefixes, 8 PDUs with an AE title longer than its 16-byte field (must be refused) (native enumeration of the compiled code; not a deductive result)",
           fns=[("ul/src/pdu/writer.rs", "write_pdu"), ("ul/src/pdu/reader.rs", "read_pdu")]),
     ],
     assumptions=[
@@ -506,6 +506,13 @@ PROPS["C04"] = dict(
           "value bytes that follow, pad byte NUL (UI / binary) or space (DA/DT/TM, text); for ALL of them bytes_written "
           "advances by exactly the bytes appended to the sink",
           expected_verified=16, witness=dict(cmd=_WR % "c04_elements")),
+        V("C04.dataset_writer", "c04_dataset_writer.vrs",
+          "DataSetWriter::write (the token-level writer): a stack of the open sequences / items records the length EMITTED for each; "
+          "ItemEnd / SequenceEnd pop the innermost one and emit its delimiter exactly when it was emitted with undefined length and is of "
+          "the matching kind; under SetUndefined every data set sequence and item is emitted with undefined length while the fragments of "
+          "encapsulated pixel data keep their explicit lengths; after a SequenceStart the writer is never 'inside pixel data' (defect S27: "
+          "this postcondition fails on the text before the fix); element headers are only remembered; values are printed as they come",
+          expected_verified=12, witness=dict(cmd=_WR % "c01_objects")),
         V("C04.collection_delimited", "c04_collection_delimited.vrs",
           "encode_collection_delimited (multi-valued date / time / date-time / string values): the count returned equals the "
           "bytes appended to the sink (elements + one backslash between consecutive values), for any number of values",
@@ -515,7 +522,7 @@ PROPS["C04"] = dict(
           "attributes, non-ASCII text; sequences nested three deep incl. an empty sequence and an empty item; encapsulated pixel data with offset "
           "table and two fragments) written with write_dataset_with_ts in Implicit VR LE, Explicit VR LE, Explicit VR BE and Deflated Explicit "
           "VR LE: the written stream is walked by an independent recursive reader of the PS3.5 layout: every defined value length is even and its bytes follow, undefined-length sequences and items are closed by the matching delimiters, defined lengths end where they say, tags ascend, nothing is left over",
-          bound="15 (object, transfer syntax) pairs (the deflated stream is only round-tripped) + 8 hand-encoded streams with defined-length sequences / items (two of them with a sequence FOLLOWING encapsulated pixel data), which must be reproduced byte for byte when the recorded lengths are kept and be structurally valid under the default strategy (native run of the compiled code; not a deductive result)",
+          bound="15 (object, transfer syntax) pairs (the deflated stream is only round-tripped) + 9 hand-encoded streams with defined-length sequences / items (two of them with a sequence FOLLOWING encapsulated pixel data), which must be reproduced byte for byte when the recorded lengths are kept and be structurally valid under the default strategy (native run of the compiled code; not a deductive result)",
           fns=[("object/src/mem.rs", "write_dataset_with_ts")]),
         N("C04.elements", _WR % "c04_elements",
           "element level, on the compiled code: StatefulEncoder::encode_primitive_element with the three real encoders over every "
@@ -544,9 +551,13 @@ PROPS["C04"] = dict(
         "text codec abstract: convert_text_untrailed returns some byte string shorter than 4 GiB",
         "encode_texts_element and encode_element_as_text (iterator / format! code) are NOT verified",
         "precondition room(n): bytes_written + n fits u64; value byte length < 2^32-2",
+        "C04.dataset_writer: DataSetWriter::write_impl (prints one token through the stateful encoder, whose functions are under contract in "
+        "C04.stateful_encoder) is an abstract callee appending the token to a ghost log; the balance of a whole token stream is the induction over "
+        "calls of the per-call contract and is not machine-composed; the derived == on SeqTokenType is written as a match",
     ],
-    uncovered=["validity of whole streams as judged by an independent parser", "DataSetWriter token machine (item/sequence delimiters vs lengths)",
-               "file writing (object/src/lib.rs)",
+    uncovered=["validity of whole streams as judged by an independent parser: only the native unit C04.streams",
+               "the token streams produced by IntoTokens (object -> tokens): only the native units",
+               "file writing (object/src/lib.rs): only the native units C04.streams / C09.*",
                "encode_date/encode_time/encode_datetime/write!(str) element encoders: their returned counts are assumed "
                "(Kani harnesses over them exceed 600 s in format machinery)"],
 )
@@ -578,7 +589,7 @@ PROPS["C01"] = dict(
           "attributes, non-ASCII text; sequences nested three deep incl. an empty sequence and an empty item; encapsulated pixel data with offset "
           "table and two fragments) written with write_dataset_with_ts in Implicit VR LE, Explicit VR LE, Explicit VR BE and Deflated Explicit "
           "VR LE: the stream read back in the same transfer syntax is equal to the written object up to the documented normalisations, and writing it again gives the same bytes",
-          bound="20 (object, transfer syntax) pairs + 8 hand-encoded streams with defined-length sequences / items (two of them with a sequence FOLLOWING encapsulated pixel data) re-written with the recorded lengths kept and with the default strategy (native run of the compiled code; not a deductive result)",
+          bound="20 (object, transfer syntax) pairs (each also written with write_dataset_with_ts_options / _cs_options and read back) + 9 hand-encoded streams with defined-length sequences / items (two of them with a sequence FOLLOWING encapsulated pixel data) re-written with the recorded lengths kept and with the default strategy (native run of the compiled code; not a deductive result)",
           fns=[("object/src/mem.rs", "write_dataset_with_ts"), ("object/src/mem.rs", "read_dataset_with_ts")]),
         N("C01.elements", _WR % "c01_elements",
           "element level, on the compiled code (Kani aborts on StatefulDecoder::read_value): an element written by the real "
@@ -632,7 +643,7 @@ PROPS["C12"] = dict(
           "half-hour ones): text = date text + time text + offset, parses back equal, earliest / latest = bounds of the parts in the value's "
           "own offset, a time after an imprecise date is rejected; range texts A-B, A-, -B for dates, times and date-times = earliest of A "
           ".. latest of B",
-          bound="4 199 485 values: exhaustive for dates and fraction-less times, boundary samples for fractions, date-times and ranges (native enumeration of the "
+          bound="4 199 505 values: exhaustive for dates and fraction-less times, boundary samples for fractions, date-times and ranges (native enumeration of the "
                 "compiled code; not a deductive result)",
           fns=[("core/src/value/partial.rs", "to_encoded", r"impl\s+DicomDate\s*\{"), ("core/src/value/partial.rs", "to_encoded", r"impl\s+DicomTime\s*\{")]),
         K("C12.parse_kani_crosscheck", "ext", ["c12::c12_parse_date_y", "c12::c12_parse_time_h"],
@@ -751,7 +762,7 @@ PROPS["C09"] = dict(
           "byte source and by path, with the 128-byte preamble (zero or arbitrary content) and without it, with the preamble option Auto / Always "
           "/ Never where they apply: every way gives the same object, whose meta table is the one written and which writes back to the same "
           "bytes; truncated starts and a missing magic code are errors, never panics",
-          bound="96 checks over 4 files (native run of the compiled code, temporary files under /verif/build; not a deductive result)",
+          bound="144 checks over 4 files, incl. sources delivering 1 / 2 / 100 / 131 / 133 bytes per read and files with empty media storage UIDs (native run of the compiled code, temporary files under /verif/build; not a deductive result)",
           fns=[("object/src/file.rs", "from_reader", r"impl<D,\s*T>\s+OpenFileOptions<D,\s*T>")]),
         N("C09.after_operations", _WR % "c09_after_operations",
           "'this still holds after any supported attribute operation': every attribute action kind (Remove, Empty, SetVr, Set, SetStr, "
@@ -806,7 +817,7 @@ PROPS["C34"] = dict(
           "of three PDUs received through read_pdu_from_wire from a transport failing at offset k (every k, three segment sizes): the PDUs "
           "completely before the failure are received, then an error; PDUs of 8 types sent with write_pdu to a sink failing at offset k (every k, "
           "every failure mode): an error",
-          bound="33 262 (operation, failure mode, offset) cases over 2 objects x (4 data set syntaxes + file) + a deflated file + 8 PDUs (native "
+          bound="49 958 (operation, failure mode, offset) cases over 2 objects x (4 data set syntaxes, also through a BufWriter given by value, + file) + a deflated file + 8 PDUs (native "
                 "enumeration of the compiled code; not a deductive result)",
           fns=[("object/src/mem.rs", "write_dataset_with_ts"), ("object/src/mem.rs", "read_dataset_with_ts")]),
     ],
@@ -872,7 +883,7 @@ PROPS["C05"] = dict(
           "decode_pixel_data_frame; every truncation and single-byte mutation of a Deflated Explicit VR Little Endian file through "
           "from_reader (a sample also through open_file) and of a file meta group through FileMetaTable::from_reader: a value or an error, "
           "never a panic",
-          bound="568 670 inputs (native enumeration of the compiled code; not a deductive result; says nothing about inputs outside the family)",
+          bound="574 918 inputs (native enumeration of the compiled code; not a deductive result; says nothing about inputs outside the family)",
           fns=[("transfer-syntax-registry/src/adapters/jpeg.rs", "decode_frame"), ("object/src/meta.rs", "from_reader"),
                ("core/src/value/range.rs", "parse_datetime_range")], timeout=2400),
         N("C05.depth", _WR2 % "c05_depth",
